@@ -17,12 +17,12 @@ Definition count1 (c : wconf) (k : nat) : bytes :=
   match c_natoms c with None => lpad NUMBER_FIGURES (fmt_Z (Z.of_nat k)) | Some n => fmt_Z n end.
 
 Definition title_ok (c : wconf) : Prop :=
-  match c_title c with None => True | Some t => t <> [] /\ no_nl t end.
+  match c_title c with None => True | Some t => no_nl t end.
 
-Lemma default_title_ok : bs DEFAULT_COMMENT <> [] /\ no_nl (bs DEFAULT_COMMENT).
-Proof. split; [discriminate|reflexivity]. Qed.
+Lemma default_title_ok : no_nl (bs DEFAULT_COMMENT).
+Proof. reflexivity. Qed.
 
-Lemma title_of_ok c : title_ok c -> title_of c <> [] /\ no_nl (title_of c).
+Lemma title_of_ok c : title_ok c -> no_nl (title_of c).
 Proof. unfold title_ok, title_of. destruct (c_title c); [tauto|]. intros _. apply default_title_ok. Qed.
 
 Lemma last_opt_no_nl t : t <> [] -> no_nl t -> exists ch, last_opt t = Some ch /\ Ascii.eqb ch NL = false.
@@ -33,6 +33,11 @@ Proof.
     assert (Hin : In ch t) by (apply in_rev; rewrite E; left; reflexivity).
     unfold no_nl in Hnl. rewrite forallb_forall in Hnl. specialize (Hnl _ Hin).
     apply negb_true_iff in Hnl. exact Hnl.
+Qed.
+Lemma ends_nl_no_nl t : no_nl t -> ends_nl t = false.
+Proof.
+  intros Hnl. unfold ends_nl. destruct t as [|x t']; [reflexivity|].
+  destruct (last_opt_no_nl (x :: t') ltac:(discriminate) Hnl) as (ch & Hl & Hc). rewrite Hl. exact Hc.
 Qed.
 Lemma drop_final_nl_no_nl t : no_nl t -> drop_final_nl t = t.
 Proof.
@@ -57,8 +62,7 @@ Lemma w_start_ok c : title_ok c -> box_ok (c_box c) ->
 Proof.
   intros Ht Hb. unfold w_start, title_of. destruct (set_box_ok _ Hb) as [E _]. rewrite E.
   unfold title_ok in Ht. destruct (c_title c) as [t|].
-  - destruct Ht as [Hne Hnl]. unfold set_comment. destruct t; [contradiction|].
-    rewrite drop_final_nl_no_nl by assumption. reflexivity.
+  - unfold set_comment. rewrite drop_final_nl_no_nl by assumption. reflexivity.
   - reflexivity.
 Qed.
 
@@ -73,12 +77,11 @@ Proof. unfold at_end. intros H. unfold fwrite, with_file. rewrite H, write_at_en
 Lemma at_end_with_file st f : at_end (with_file st f).
 Proof. reflexivity. Qed.
 
-Lemma w_header_ok st title : at_end st -> wf st = [] -> wtitle st = title -> title <> [] -> no_nl title ->
+Lemma w_header_ok st title : at_end st -> wf st = [] -> wtitle st = title -> no_nl title ->
   w_header st = Ok (with_file st (title ++ [NL] ++
                       match wnat st with None => repeat SP NUMBER_FIGURES | Some n => fmt_Z n end ++ [NL])).
 Proof.
-  intros He Hf Ht Hne Hnl. unfold w_header. rewrite Ht.
-  destruct (last_opt_no_nl title Hne Hnl) as (ch & Hl & Hc). rewrite Hl. cbn [bind]. rewrite Hc.
+  intros He Hf Ht Hnl. unfold w_header. rewrite Ht. rewrite (ends_nl_no_nl title Hnl).
   rewrite (fwrite_end st) by assumption. rewrite Hf. cbn [app].
   rewrite (fwrite_end (with_file st title)) by apply at_end_with_file.
   cbn [with_file wf wtitle wnat wfmt wset wbsz wbox wcur wclosed].
@@ -119,7 +122,7 @@ Section Run.
     assert (Hwd' : match c_fmt c with None => (DEFAULT_POS_FIGURES, DEFAULT_POS_DECIMALS) | Some f => f end = (w, d))
       by exact Hwd.
     rewrite Hwd'.
-    destruct (title_of_ok c Htitle) as [Hne Hnl]. fold title in Hne, Hnl.
+    pose proof (title_of_ok c Htitle) as Hnl. fold title in Hnl.
     rewrite (w_header_ok _ title) by (reflexivity || assumption).
     cbn [bind with_file wf wpos wtitle wnat wfmt wset wbsz wbox wcur wclosed].
     rewrite w_record_ok by (reflexivity || (cbn [s_vel]; assumption)).
